@@ -18,7 +18,7 @@ from concurrent.futures import ThreadPoolExecutor
 ROOT = os.path.dirname(os.path.dirname(os.path.abspath(__file__)))
 COQ = os.path.join(ROOT, "coq")
 HARNESS = os.path.join(ROOT, "harness")
-HARNESS_BIN = os.path.join(HARNESS, "target", "release", "dlharness")
+HARNESS_BIN_DIR = os.path.join(HARNESS, "target", "release")
 WORK = os.path.join(ROOT, ".work")
 EVIDENCE = os.path.join(ROOT, "evidence")
 REPLAYS = os.path.join(EVIDENCE, "replays")
@@ -71,27 +71,28 @@ class Lock:
 # building
 
 
-def build_harness():
-    """(Re)build the Rust harness against /repo's current working tree, hooks on."""
+def build_harness(crate):
+    """(Re)build one harness binary (crate `dl-cXX`) against /repo's current working tree, hooks on."""
+    cmd = ["cargo", "build", "--release", "--offline", "-q", "-p", crate]
     with Lock("cargo"):
         lock_src = os.path.join(REPO, "Cargo.lock")
         lock_dst = os.path.join(HARNESS, "Cargo.lock")
         if os.path.exists(lock_src) and not os.path.exists(lock_dst):
             shutil.copy(lock_src, lock_dst)
         t0 = time.time()
-        rc, out = sh(["cargo", "build", "--release", "--offline", "-q"], cwd=HARNESS, timeout=1800)
+        rc, out = sh(cmd, cwd=HARNESS, timeout=1800)
         if rc != 0:
             # a stale lock file copied from another repo state: retry once with a fresh copy
             if os.path.exists(lock_src):
                 shutil.copy(lock_src, lock_dst)
-                rc, out = sh(["cargo", "build", "--release", "--offline", "-q"], cwd=HARNESS, timeout=1800)
+                rc, out = sh(cmd, cwd=HARNESS, timeout=1800)
         if rc != 0:
             raise CheckBroken("harness build against %s failed:\n%s" % (REPO, out[-4000:]))
         return time.time() - t0
 
 
-def harness(args, input=None, timeout=1200, check=True):
-    rc, out = sh([HARNESS_BIN] + list(args), input=input, timeout=timeout)
+def harness(crate, args, input=None, timeout=1200, check=True):
+    rc, out = sh([os.path.join(HARNESS_BIN_DIR, crate)] + list(args), input=input, timeout=timeout)
     if check and rc != 0:
         raise CheckBroken("harness %s failed (rc=%s):\n%s" % (" ".join(args), rc, out[-3000:]))
     return out
